@@ -43,6 +43,24 @@ func main() {
 		os.Exit(runVariant(os.Args[2:]))
 	case "debug":
 		runDebug(os.Args[2:])
+	case "pin-funcs":
+		// writes the identities of the declared functions of the given tree (the names the rules refer to)
+		repo := "/repo"
+		if len(os.Args) > 2 {
+			repo = os.Args[2]
+		}
+		p, err := engine.Load(repo, nil)
+		if err != nil {
+			fmt.Fprintln(os.Stderr, err)
+			os.Exit(2)
+		}
+		if len(os.Args) > 3 && os.Args[3] == "types" {
+			b, _ := json.MarshalIndent(p.TopLevelTypes(), "", " ")
+			fmt.Println(string(b))
+			break
+		}
+		b, _ := json.MarshalIndent(p.TopLevelFuncs(), "", " ")
+		fmt.Println(string(b))
 	default:
 		usage()
 	}
